@@ -138,6 +138,20 @@ def props_info(prop):
     return ok, names, out
 
 
+def coqchk(prop, timeout=2400):
+    """thorough tier: re-check Props/<id>.vo and everything it depends on with the independent checker;
+    returns (ok, summary text incl. the axiom list)"""
+    with open(os.path.join(COQ, '.lock'), 'w') as lk:
+        fcntl.flock(lk, fcntl.LOCK_SH)
+        rc, out = run(['timeout', str(timeout), 'coqchk', '-silent', '-o', '-Q', 'theories', 'Regal',
+                       'Regal.Props.' + prop], cwd=COQ, timeout=timeout + 60)
+    i = out.find('CONTEXT SUMMARY')
+    summ = out[i:] if i >= 0 else out[-2000:]
+    ok = rc == 0 and 'Axioms: <none>' in summ and 'type-in-type: <none>' in summ \
+        and 'unsafe (co)fixpoints: <none>' in summ and 'positivity is assumed: <none>' in summ
+    return ok, ' '.join(summ.split())
+
+
 def forbidden_scan():
     """no Admitted/admit/Axiom/... anywhere in the development"""
     hits = []
